@@ -1207,6 +1207,9 @@ class CompositeEnvelope:
         # Make sure the order of the states in tensoring is correct
         self.reorder(*states)
 
+        # Reordering may have combined the states into a new product state
+        ps = [p for p in self.states if all(so in p.state_objs for so in states)][0]
+
         outcome = ps.measure_POVM(operators, *states, destructive=destructive)
         return outcome
 
@@ -1288,6 +1291,9 @@ class CompositeEnvelope:
         # Make sure the order of the states in tensoring is correct
         self.reorder(*states)
 
+        # Reordering may have combined the states into a new product state
+        ps = [p for p in self.states if all(so in p.state_objs for so in states)][0]
+
         ps.apply_kraus(operators, *states)
 
     def trace_out(self, *states: Union["BaseState"]) -> jnp.ndarray:
@@ -1322,9 +1328,10 @@ class CompositeEnvelope:
             assert (
                 len(product_states) > 0
             ), "Only one product state should exist at this point"
-        ps = product_states[0]
-
         self.reorder(*states)
+
+        # Reordering may have combined the states into a new product state
+        ps = [p for p in self.states if all(so in p.state_objs for so in states)][0]
 
         return ps.trace_out(*states)
 
